@@ -157,9 +157,17 @@ func VerifH_C07_attributes() {
 		verifrt.Cover("alternate")
 	}
 	wantOut := ""
-	if verifrt.Choice("anchor", 2) == 1 {
+	switch verifrt.Choice("anchor", 4) {
+	case 1: // dot segments
 		els = append(els, c07El{"a", [][2]string{{"href", "../next.html"}}})
 		wantOut = "http://site.example/next.html"
+	case 2: // query-only reference: replaces the page's query, keeps its path
+		els = append(els, c07El{"a", [][2]string{{"href", "?page=2"}}})
+		wantOut = "http://site.example/dir/page?page=2"
+		verifrt.Cover("query-only-anchor")
+	case 3: // scheme-relative reference
+		els = append(els, c07El{"a", [][2]string{{"href", "//other.example/x?y=1"}}})
+		wantOut = "http://other.example/x?y=1"
 	}
 	c07Check(cfg, disabled, els, wantAssets, wantOut)
 }
